@@ -36,3 +36,25 @@ Definition first_bad (m : amap pconf -> obs -> tid * event -> bool) (t : trace) 
 Definition window_code (t : trace) : nat :=
   fold_left (fun acc (b : bool) => 2 * acc + (if b then 1 else 0)) (windows_of (final_obs (t_confs t) (t_evs t))) 0.
 Definition window_codes (ts : list trace) : list nat := map window_code ts.
+
+(* window code of the observer state AT the first violation of a monitor (0 when the history is fine):
+   only windows that the history went through BEFORE the violating event can explain it *)
+Fixpoint mon_run_w (cs : amap pconf) (m : obs -> tid * event -> bool) (o : obs) (evs : list (tid * event)) : option nat :=
+  match evs with
+  | [] => None
+  | e :: r => if m o e then mon_run_w cs m (obs_step cs o e) r
+              else Some (fold_left (fun acc (b : bool) => 2 * acc + (if b then 1 else 0)) (windows_of o) 0)
+  end.
+Definition badw_mon (m : amap pconf -> obs -> tid * event -> bool) (ts : list trace) : list nat :=
+  flat_map (fun t => match mon_run_w (t_confs t) (m (t_confs t)) (obs0 (t_confs t)) (t_evs t) with
+                     | Some w => [w] | None => [] end) ts.
+Definition badw_C01 := badw_mon mon_C01.
+Definition badw_C02 := badw_mon mon_C02.
+Definition badw_C03 := badw_mon mon_C03.
+Definition badw_C04 := badw_mon mon_C04.
+Definition badw_C05 := badw_mon mon_C05.
+Definition badw_C08 := badw_mon mon_C08.
+Definition badw_C09 := badw_mon mon_C09.
+Definition badw_C12 (ts : list trace) : list nat :=
+  flat_map (fun t => match mon_run_w (t_confs t) (mon_C12 (t_ordered t) (t_confs t)) (obs0 (t_confs t)) (t_evs t) with
+                     | Some w => [w] | None => [] end) ts.
